@@ -451,7 +451,7 @@ Lemma items_ok_depth items : forallb item_ok items = true -> forall d, depth_ok 
 Proof.
   induction items as [|c r IH]; intros H d; [reflexivity|].
   cbn in H. apply andb_true_iff in H as [H1 H2]. unfold item_ok in H1. apply negb_true_iff in H1.
-  apply orb_false_iff in H1 as [H1 Hdd]. cbn [depth_ok]. rewrite H1, Hdd. apply IH; auto.
+  apply orb_false_iff in H1 as [H1 _]. apply orb_false_iff in H1 as [H1 Hdd]. cbn [depth_ok]. rewrite H1, Hdd. apply IH; auto.
 Qed.
 
 Lemma depth_ok_hd items : depth_ok items 0 = true -> depth_ok [hd [] items] 0 = true.
